@@ -252,6 +252,11 @@ def run(ctx: Ctx, env):
                            "(a missing related row must behave as null)", where, "author/name eq 'A' or content eq 'y'")
     sub = _SubCtx(ctx, only={"R4.to-one-joins-are-outer"})
     _check_chain(sub, env, "sqlalchemy.apply_odata_query", "odata_query.sqlalchemy.shorthand", "apply_odata_query", "AstToSqlAlchemyOrmVisitor", orm_extra)
+    # when the join for a path may be left out (a parent matched against another relationship's rows otherwise): C15's rules
+    from .c15 import check_orm_shorthand
+    check_orm_shorthand(_SubCtx(ctx, only={"R3.join-skipped-only-if-present", "R3.join-skip-identifies-the-relationship",
+                                           "R3.existing-joins-unabridged", "R3.joins-what-the-visitor-collected"},
+                                rename=lambda r: "R4." + r.split(".", 1)[1]), env)
     # every relationship visit_Attribute resolves is recorded for joining
     for p in H.eval_visit(ORM, "Attribute") or []:
         if p.outcome == "return":
@@ -283,13 +288,14 @@ def run(ctx: Ctx, env):
 class _SubCtx:
     """Forward only selected rules of a shared helper to the real context."""
 
-    def __init__(self, ctx: Ctx, only: Set[str]):
+    def __init__(self, ctx: Ctx, only: Set[str], rename=None):
         self._ctx = ctx
         self._only = only
+        self._rename = rename or (lambda r: r)
 
     def check(self, cond, rule, key, detail="", where="", witness=None, **extra):
         if rule in self._only:
-            return self._ctx.check(cond, rule, key, detail, where, witness, **extra)
+            return self._ctx.check(cond, self._rename(rule), key, detail, where, witness, **extra)
         return cond
 
     def ok(self, *a, **k):
@@ -297,7 +303,7 @@ class _SubCtx:
 
     def fail(self, rule, key, detail, where="", witness=None, **extra):
         if rule in self._only:
-            self._ctx.fail(rule, key, detail, where, witness, **extra)
+            self._ctx.fail(self._rename(rule), key, detail, where, witness, **extra)
 
     def floor(self, *a, **k):
         pass
